@@ -135,7 +135,7 @@ def main(argv):
 
     if bounded_fut is not None:
         nat = bounded_fut.result()
-        e = {'name': 'bounded-native-search', 'level': 'bounded', 'tried': nat.get('tried'), 'detail': nat.get('detail'),
+        e = {'name': 'bounded-native-search', 'level': 'bounded', 'tried': nat.get('tried'), 'distinct': nat.get('distinct'), 'samples': nat.get('samples'), 'detail': nat.get('detail'),
              'bound': nat.get('bound', 'see replay/%s.py: enumerated small scope + seeded random cases' % prop)}
         if nat.get('reproduced'):
             e['status'] = 'violation'; e['replay'] = nat; e['inputs'] = nat.get('witness')
@@ -242,7 +242,9 @@ def main(argv):
     if len(undecided) > 40: print('UNDECIDED ... %d more' % (len(undecided) - 40))
     if rc == 0 and crashes: rc = 3
     if rc == 0 and undecided: rc = 2
-    if rc == 0 and total == 0: rc = 3; print('CHECKER-CRASH zero obligations generated')
+    watch_only = total == 0 and results and all(r.get('watch_only') for r in results)
+    bounded_ok = [e for e in extras if e.get('level') == 'bounded' and e.get('status') in ('ok', 'violation') and (e.get('tried') or 0) > 0]
+    if rc == 0 and total == 0 and not (watch_only and bounded_ok): rc = 3; print('CHECKER-CRASH zero obligations generated')
     wall = time.time() - t0
     write_evidence(evidence_path, prop, tier, seed, results, extras, wall, violations=len(reported), known=sorted(seen_known),
                    total=total, discharged=discharged, undecided=undecided)
@@ -288,7 +290,16 @@ def write_evidence(path, prop, tier, seed, results, extras, wall, violations=0, 
     }
     if crash: ev['coverage']['explanation'] = crash
     if total == 0:
-        ev['level'] = 'other'; ev['coverage']['explanation'] = 'no obligations generated: ' + str(crash)
+        b = [e for e in extras if e.get('level') == 'bounded' and (e.get('tried') or 0) > 0]
+        if b and not crash:
+            # no function of this property is under contract: bounded native search only (never counted as proved)
+            ev['level'] = 'exploration'
+            ev['coverage'].update({'evaluations': b[0]['tried'], 'distinct_nontrivial': int(b[0].get('distinct') or 0),
+                'rule': 'bounded native search of replay/%s.py (%s); a case counts as distinct and non-trivial when its descriptor is new and the second operation really ran inside the first' % (prop, b[0].get('bound')),
+                'samples': b[0].get('samples') or [b[0].get('detail')], 'exhaustive': False})
+            for k in ('obligations', 'discharged'): ev['coverage'].pop(k, None)
+        else:
+            ev['level'] = 'other'; ev['coverage']['explanation'] = 'no obligations generated: ' + str(crash)
     json.dump(ev, open(path, 'w'), indent=1, default=str)
 
 if __name__ == '__main__':
